@@ -1,8 +1,8 @@
 (* Model/Diff.v — difference data: TabularFields.diff_to / MeshFields.diff_to
    (tabular/_tabular_fields.py:47-77, mesh/_mesh_fields.py:96-98,190-233).
    `a.diff_to(b)` is `_subtract(b, a)`: reference minus source on matching entities, NaN (None) for one-sided fields. *)
-From Coq Require Import QArith Arith Bool List.
-From FC Require Import Model.Compare.
+From Coq Require Import QArith ZArith Arith Bool List.
+From FC Require Import Model.Scalar Model.Compare.
 Import ListNotations.
 Local Open Scope nat_scope.
 
@@ -43,3 +43,12 @@ Definition diff_mesh (domains_equal : bool) (src ref : list column) : option (li
       ++ map (fun f => (fname f, map (fun _ => None) (col_values (fname f) ref))) (orph_src q)
       ++ map (fun f => (fname f, map (fun _ => None) (col_values (fname f) src))) (orph_ref q))
     else None.
+
+(* ---- integer fields: the numeric type in which the difference is computed ------------------------------------------- *)
+(* numpy subtracts two arrays of one integer type in that type: the result is the difference modulo 2^w (Model.Scalar.wrap).
+   Pinned (finding F-C14a): the fields' own type.  Repaired (`_numpy_utils.subtract`): integers narrower than 64 bits and
+   signed 64-bit integers are subtracted as int64, unsigned 64-bit integers as float64 (not modelled here). *)
+Definition int_diff_pinned (w : Z) (sgn : bool) (refv srcv : Z) : Z := wrap w sgn (refv - srcv).
+Definition int_diff_fixed (refv srcv : Z) : Z := wrap 64 true (refv - srcv).
+Definition in_int_range (w : Z) (sgn : bool) (z : Z) : Prop :=
+  if sgn then (- 2 ^ (w - 1) <= z < 2 ^ (w - 1))%Z else (0 <= z < 2 ^ w)%Z.
